@@ -49,8 +49,9 @@ def cases(tier, seed):
         i += 1
 
 
-def roughen(text, rnd):
-    """Add hostile but harmless import forms to a module; returns (text, forms)."""
+def roughen(text, rnd, rel=None):
+    """Add hostile but harmless import forms to a module; returns (text, forms).
+    rel = (sibling module, module of the parent package) for a module of a nested package."""
     lines = text.split("\n")
     forms = set()
     # position after docstring / __future__
@@ -88,6 +89,33 @@ def roughen(text, rnd):
     if r() < 0.2:
         tail += ["", "import re", "re = 5"]
         forms.add("import-shadowed-by-assignment")
+    # imports whose ONLY use sits in a special syntactic position (module-level code: a wrongly removed
+    # import fails when the module is imported)
+    special = [
+        ("class-keyword", "import abc", ["class _Abstract(metaclass=abc.ABCMeta):", "    pass"]),
+        ("class-base", "import numbers", ["class _Num(numbers.Number):", "    pass"]),
+        ("decorator", "import functools", ["@functools.lru_cache(maxsize=None)", "def _memo(v):", "    return v"]),
+        ("default-argument", "import decimal", ["def _dflt(v=decimal.Decimal(1)):", "    return v"]),
+        ("annotation", "import typing", ["def _ann(v: typing.Optional[int] = None) -> typing.List[int]:", "    return [v]"]),
+        ("except-clause", "import subprocess", ["try:", "    pass", "except subprocess.SubprocessError:", "    pass"]),
+        ("comprehension-condition", "import operator", ["_ops = [i for i in range(3) if operator.gt(i, 0)]"]),
+        ("with-item", "import contextlib", ["with contextlib.suppress(ValueError):", "    pass"]),
+        ("subscript-and-starred", "import itertools", ["_it = [*itertools.chain([1], [2])][0:1]"]),
+        ("lambda-body", "import math", ["_lam = (lambda v: math.floor(v))(2.5)"]),
+    ]
+    head2 = []
+    if rel and r() < 0.6:
+        # two bare-dot from-imports of different depth, both used
+        sib, par = rel
+        head2 += [f"from . import {sib} as _rel_sib", f"from .. import {par} as _rel_par"]
+        tail += ["", "_rel_probe = (_rel_sib.__name__, _rel_par.__name__)"]
+        forms.add("bare-dot-imports-of-two-levels")
+    for name, imp, code in special:
+        if r() < 0.12 and not (name == "lambda-body" and "import-in-function" in forms):
+            head2.append(imp)
+            tail += [""] + code
+            forms.add("only-use-in-" + name)
+    new = new[:idx + len(extra)] + head2 + new[idx + len(extra):]
     return "\n".join(new + tail) + ("\n" if not text.endswith("\n") else ""), sorted(forms)
 
 
@@ -229,7 +257,8 @@ def run_case(spec):
     res = core.Result()
     rnd = core.rng(spec)
     with core.Scratch() as tmp:
-        case = behave.Case(spec["pseed"], "imports", tmp + "/p", p_fstring=0.0, p_global_stmt=0.0)
+        case = behave.Case(spec["pseed"], "imports", tmp + "/p", p_fstring=0.0, p_global_stmt=0.0, package=0.8,
+                           nested_package=0.7)
         if not case.valid:
             res.ev("discarded_invalid_projects")
             res.outcome("discarded")
@@ -238,7 +267,16 @@ def run_case(spec):
         rough = {}
         for p, t in case.files.items():
             if p.endswith(".py") and p not in ("main.py", "import_all.py") and t.strip():
-                rough[p] = roughen(t, rnd)
+                rel = None
+                parts = p.split("/")
+                if len(parts) >= 3:
+                    sibs = sorted(q.split("/")[-1][:-3] for q in case.files if q.endswith(".py") and q != p
+                                  and q.split("/")[:-1] == parts[:-1] and not q.endswith("__init__.py"))
+                    pars = sorted(q.split("/")[-1][:-3] for q in case.files if q.endswith(".py")
+                                  and q.split("/")[:-1] == parts[:-2] and not q.endswith("__init__.py"))
+                    if sibs and pars:
+                        rel = (sibs[0], pars[0])
+                rough[p] = roughen(t, rnd, rel)
         new_files = dict(case.files)
         for p, (t, _) in rough.items():
             new_files[p] = t
@@ -252,7 +290,12 @@ def run_case(spec):
         res.ev("projects")
         paths = sorted(rough)
         rnd.shuffle(paths)
+        # modules that received the two-level relative imports are always among the processed ones
+        paths.sort(key=lambda q: "bare-dot-imports-of-two-levels" not in rough[q][1])
         for path in paths[:3]:
+            for f_ in rough[path][1]:
+                if f_.startswith("only-use-in-") or f_ == "bare-dot-imports-of-two-levels":
+                    res.ev("modules_with:" + f_)
             for action in rnd.sample(ACTIONS, 3):
                 prefs = {"split_imports": rnd.random() < 0.3, "pull_imports_to_top": rnd.random() < 0.7,
                          "sort_imports_alphabetically": rnd.random() < 0.3}
@@ -297,6 +340,9 @@ def run_case(spec):
                     label = "module-has-star-import"
                 elif "future" in rf and action == "froms_to_imports":
                     label = "__future__-import"
+                elif "bare-dot-imports-of-two-levels" in rf and action == "froms_to_imports":
+                    # `from . import mod` becomes `import pkg` + `pkg.mod...`: the submodule is no longer imported
+                    label = "froms_to_imports-of-a-from-package-import-submodule"
                 elif "import-shadowed-by-assignment" in rf:
                     label = "import-shadowed-by-assignment"
                 elif "import-after-code" in rf:
